@@ -898,6 +898,9 @@ func runC15(tier string, seed int64, outdir string, replay string) error {
 			c1 := c15NewChal(r, typ, id)
 			co := c15NewChal(r, map[string]string{"http-01": "tls-alpn-01", "tls-alpn-01": "http-01"}[typ], id)
 			scens = append(scens,
+				// asked before anybody presented (nothing to find), then presented elsewhere: found now
+				scen{"asked-then-remote", []c15Chal{c0}, []c15Op{A(0), P("remote", 0, 0)}, []string{"remote"}, ""},
+				scen{"asked-then-local", []c15Chal{c0}, []c15Op{A(0), P("local", 1, 0)}, []string{"local"}, ""},
 				scen{"remote-asked", []c15Chal{c0}, []c15Op{P("remote", 0, 0), A(0)}, []string{"remote"}, ""},
 				scen{"remote-asked-cleaned", []c15Chal{c0}, []c15Op{P("remote", 0, 0), A(0), C("remote", 0, 0)}, []string{"cleaned"}, ""},
 				scen{"remote-asked-renewed", []c15Chal{c0, c1}, []c15Op{P("remote", 0, 0), A(0), C("remote", 0, 0), P("remote", 0, 1)}, []string{"cleaned", "remote"}, ""},
